@@ -22,6 +22,7 @@ EXPLANATION = (
     "principal, and a loan that cannot be afforded is skipped (handler neither breaks, returns nor raises). C11.5 the "
     "interest returned is max(..., min_interest) in the interest symbol. Non-negativity, proportionality and "
     "monotonicity of interest are arithmetic over unvalidated configuration and are not claimed."
+    " C11.4 also (shared with C06.2): every way an order closes goes through _order_closed."
 )
 TRUSTED = ["CPython ast parser", "mypy callee resolution", "sa.cfg statement CFG"]
 
